@@ -213,6 +213,15 @@ def cases(tier):
                         s2["controls"] = [dict(c, prio=p, name="c%d" % i) for i, (c, p) in enumerate(zip(cs, pr))]
                         s2["id"] = {"skel": skel, "pat": pat, "hyd": hyd, "cv": cv, "controls": s2["controls"]}
                         out.append(s2)
+    # a tank with four links registered in the order plain, check valve into the tank, check valve out of the tank, plain: the
+    # last one is commanded OPEN below a level; the tank fills to its maximum level and drains again
+    for pat, thr in itertools.product(("fill_drain", "saw"), (4.5, 3.0)):
+        s = skeleton("twosrc", pat, H)
+        s["links"] += [P("c_in", "J1", "T", L=300.0, D=0.2, cv=True), P("c_out", "T", "J2", L=300.0, D=0.2, cv=True), P("p9", "J2", "T", L=250.0, D=0.25)]
+        node(s, "J2")["demands"] = [[0.05, "D", None]]          # (a peak demand that really drains the tank)
+        s["controls"] = [{"kind": "level", "node": "T", "rel": "<", "thr": thr, "link": "p9", "value": "OPEN", "prio": 3, "name": "c0"}]
+        s["id"] = {"skel": "twosrc", "pat": pat, "hyd": H, "cv": False, "controls": s["controls"], "four_tank_links": True}
+        out.append(s)
     # a pressure valve drawn AGAINST the flow (its own logic keeps it shut while it regulates) that a control commands OPEN:
     # an OPEN valve is a plain open link, whatever its regulating logic would do
     for vt, pat, thr in itertools.product(("PRV", "PSV"), ("drain", "saw", "fill_drain"), (2.5, 1.5)):
